@@ -7,7 +7,15 @@ IMPORTS_IDS = "From Ergo Require Import Common.Base Ids.Model Ids.Cases.\nLocal 
 IMPORTS_ILV = "From Ergo Require Import Common.Base Rel.Amap Rel.Model Rel.RaceGen Rel.RaceGenCases.\nLocal Open Scope N_scope."
 
 
+IMPORTS_IF = "From Ergo Require Import Common.Base Rel.Amap Rel.InitFail Rel.InitFailCases.\nLocal Open Scope N_scope."
+
+
 def _eval(c, sub, out, search=False):
+    if sub == "initfail":
+        # the registered name of processes held inside ProcessInit on a real node (Rel/InitFail.v replays the history)
+        c.cases("initfail" + ("-search" if search else ""), out, IMPORTS_IF, "icase",
+                corr=[] if search else ["corr_initfail"], spec=["spec_initfail"], premise=["premise_initfail"])
+        return
     if sub == "ilv":
         # every interleaving of a link / monitor request with every way its target goes away (real node, threads parked at
         # the target manager calls): afterwards no relation names an identifier that is gone
@@ -50,7 +58,8 @@ def run(c):
             _eval(c, sub, out)
         return
     n["ilv"] = 0
-    for sub in ("ref", "hist", "tm", "race", "ilv"):
+    n["initfail"] = 150 if quick else 3000
+    for sub in ("ref", "hist", "tm", "race", "ilv", "initfail"):
         out = c.harness("rel", [sub, "-n", str(n[sub])], timeout=900)
         if out:
             _eval(c, sub, out)
